@@ -957,6 +957,7 @@ func checkC04(w *World, c *Check, tier string) {
 		npanic += cnt
 	}
 	checkNilFields(w, c, D)
+	checkDiscardedErrorPointers(w, c, D)
 	checkFollowUpPanics(w, c, inD)
 	c.ok("C04.panic", "scan", "-", fmt.Sprintf("%d functions scanned for explicit panics, single-result assertions, integer division, slice-to-array conversion; %d found", len(D), npanic))
 
@@ -2109,4 +2110,110 @@ func (bp *bprover) lenPreservedArg(v ssa.Value) (ssa.Value, bool) {
 		return nil, false
 	}
 	return call.Common().Args[which], true
+}
+
+// checkDiscardedErrorPointers (C04.errnil): a call that returns (pointer, error) says "the pointer is only good when the
+// error is nil". Where the decode closure throws the error away and goes on with the pointer, every use of the pointer
+// must allow for nil: a nil test dominates it, or it is handed to a package function that the abstract interpreter runs
+// without a fault on a nil argument. `u, _ := url.ParseRequestURI(s); validURL(u)` is fine while validURL tests
+// u != nil and a crash on the first string that is not a URL once it calls a method of u.
+func checkDiscardedErrorPointers(w *World, c *Check, D []*ssa.Function) {
+	n := 0
+	for _, f := range D {
+		k := 0
+		for _, b := range f.Blocks {
+			for _, in := range b.Instrs {
+				call, ok := in.(*ssa.Call)
+				if !ok || call.Referrers() == nil {
+					continue
+				}
+				tup, ok := call.Type().(*types.Tuple)
+				if !ok || tup.Len() != 2 || !isErrorType(tup.At(1).Type()) {
+					continue
+				}
+				if _, isPtr := types.Unalias(tup.At(0).Type()).Underlying().(*types.Pointer); !isPtr {
+					continue
+				}
+				var val *ssa.Extract
+				errUsed := false
+				for _, r := range *call.Referrers() {
+					ex, isEx := r.(*ssa.Extract)
+					if !isEx {
+						continue
+					}
+					if ex.Index == 1 && ex.Referrers() != nil && len(*ex.Referrers()) > 0 {
+						errUsed = true
+					}
+					if ex.Index == 0 {
+						val = ex
+					}
+				}
+				if errUsed || val == nil || val.Referrers() == nil || len(*val.Referrers()) == 0 {
+					continue
+				}
+				n++
+				k++
+				key := fmt.Sprintf("%s:discarded-error#%d", funcName(f), k)
+				bad := ""
+				for _, r := range *val.Referrers() {
+					ri, isInstr := r.(ssa.Instruction)
+					if !isInstr {
+						continue
+					}
+					// a dominating nil test of the pointer?
+					tested := false
+					for _, g := range rawGuards(ri.Block()) {
+						if bo, isBin := g.cond.(*ssa.BinOp); isBin && (bo.X == ssa.Value(val) && isNilConst(bo.Y) || bo.Y == ssa.Value(val) && isNilConst(bo.X)) {
+							if (bo.Op == token.NEQ && g.onTrue) || (bo.Op == token.EQL && !g.onTrue) {
+								tested = true
+							}
+						}
+					}
+					if tested {
+						continue
+					}
+					switch x := r.(type) {
+					case *ssa.BinOp:
+						// the nil test itself
+					case *ssa.FieldAddr, *ssa.UnOp:
+						bad = "dereferences it"
+					case *ssa.Call:
+						cal := x.Common().StaticCallee()
+						switch {
+						case cal == nil:
+							bad = "hands it to a call that cannot be resolved"
+						case cal.Signature.Recv() != nil && len(x.Common().Args) > 0 && x.Common().Args[0] == ssa.Value(val) && !w.InPkg(cal):
+							// reviewed: the methods of fastjson's *Value and *Object start with a nil test of the receiver
+							// (the parser's accessors are designed to be chained on missing members)
+							if !strings.HasPrefix(extName(cal), "(*github.com/valyala/fastjson.") {
+								bad = "calls its method " + cal.Name()
+							}
+						case w.InPkg(cal) && cal.Blocks != nil:
+							args := make([]AV, len(x.Common().Args))
+							for ai, a := range x.Common().Args {
+								if a == ssa.Value(val) {
+									args[ai] = avNilPtr(val.Type())
+								} else {
+									args[ai] = avTop
+								}
+							}
+							ip := newInterp(w)
+							ip.Call(cal, args, nil, Store{}, nil)
+							if len(ip.faults) > 0 {
+								bad = "hands it to " + funcName(cal) + ", which faults on a nil argument (" + strings.Join(ip.faultStrings(), "; ") + ")"
+							} else if ip.aborted != "" {
+								bad = "hands it to " + funcName(cal) + " (undecided: " + ip.aborted + ")"
+							}
+						}
+					}
+				}
+				if bad != "" {
+					c.bad("C04.errnil", key, w.InstrPos(call), fmt.Sprintf("%s discards the error of %s and %s: for the inputs on which the call fails the pointer is nil and the decoder panics", funcName(f), shortVal(call), bad))
+				} else {
+					c.ok("C04.errnil", key, w.InstrPos(call), "every use of the pointer allows for nil")
+				}
+			}
+		}
+	}
+	c.ok("C04.errnil", "scan", "-", fmt.Sprintf("%d calls with a discarded error and a used pointer result in the decode closure", n))
 }
